@@ -1,6 +1,7 @@
 import MgpuModel.Util
 import MgpuModel.C06_Lanes
 import MgpuModel.Gen.VectorHandlers
+import MgpuModel.Gen.LaneBodies
 /-! # C06 — what a vector handler's fact record must satisfy, and the line-protocol driver
 
 `FitsSkeleton` is evaluated (by `decide`) on the records regenerated from the Go source on every run
@@ -191,6 +192,151 @@ def runCase (name : String) (exec vcc off : Nat) (a b : List Nat) : String :=
   | "flatload" => go hFlatLoad () 2
   | _ => "bad-handler"
 
+/-! ## `c06 body`: one iteration of a translated lane body against the real ALU (one active lane) -/
+
+/-- the handler a dispatch name stands for: itself, or what a wrapper selects for these instruction fields -/
+def resolveLane (arch name : String) (u : Uni) : Option LaneHandler :=
+  let nm := match Gen.Lane.wrappers.find? (fun w => w.1 == arch && w.2.1 == name) with
+    | some w => w.2.2 u
+    | none => name
+  Gen.Lane.laneHandlers.find? (fun h => h.arch == arch && h.name == nm)
+
+def keepW (w : Nat) (v : BitVec 64) : BitVec 64 := if w == 32 then (v.setWidth 32).setWidth 64 else v
+
+/-- float results: every NaN prints as `nan` (payloads / signs of NaNs are not part of the tie) -/
+def nanCanon (isF : Bool) (dw v : Nat) : String :=
+  let nan32 := v / 8388608 % 256 == 255 && v % 8388608 != 0
+  let nan64 := v / 4503599627370496 % 2048 == 2047 && v % 4503599627370496 != 0
+  if isF && ((dw == 32 && nan32) || (dw == 64 && nan64)) then "nan" else Util.toHex v
+
+def bodyCase (arch name : String) (kv : List String) : String :=
+  let hx := fun k => (Util.kvHex? kv k).getD 0
+  let bv := fun (w : Nat) k => BitVec.ofNat w (hx k)
+  let u : Uni :=
+    { isSdwa := hx "sdwa" != 0, clamp := hx "clamp" != 0, abs := bv 64 "abs", neg := bv 64 "neg", omod := bv 64 "omod"
+      src0Sel := bv 32 "s0sel", src1Sel := bv 32 "s1sel", dstSel := bv 32 "dsel", dstUnused := bv 8 "dun"
+      -- consulted by float handlers only (no body correspondence for those)
+      opSel := 0, opSelHi := 0, src0Neg := false, src1Neg := false, src2Neg := false, src0Abs := false, src1Abs := false
+      src2Abs := false, k2 := 0 }
+  match resolveLane arch name u with
+  | none => "untranslated"
+  | some h =>
+    let isF := Gen.Lane.coverage.any (fun r => r.arch == h.arch && r.name == h.name && (match r.cov with | .translatedF _ => true | _ => false))
+    if isF && !Gen.Lane.exactFloat.contains (h.arch, h.name) then "float-body-not-tied" else
+    if !h.ok u then "fault" else
+    let vcc := bv 64 "vcc"
+    let r : RawIn :=
+      { i := (Util.kvNat? kv "i").getD 0, src0 := bv 64 "s0", src1 := bv 64 "s1", src2 := bv 64 "s2", dstOld := bv 64 "d", vcc := vcc
+        acc := (match h.accInit with | .vcc => vcc | _ => 0#64) }
+    let o := h.raw u r
+    let dw := hx "dw"
+    let d := if dw == 0 then "-" else nanCanon isF dw (keepW dw (o.dst.getD r.dstOld)).toNat
+    -- where the accumulator goes: VCC, or the SGPR pair named by inst.SDst / inst.Dst (`vcc` / `sd` / `none`)
+    let target := match h.sink with
+      | .none => "none"
+      | .vcc => "vcc"
+      | .sdst => (Util.kv? kv "mos").getD "none"
+      | .dst => (Util.kv? kv "mod").getD "none"
+    let vcc' := if target == "vcc" then o.acc else vcc
+    let sd' := if target == "sd" then o.acc else bv 64 "sd"
+    s!"d={d} vcc={Util.toHex vcc'.toNat} sd={Util.toHex sd'.toNat}"
+
+/-! ## `c06 gorun`: a whole translated handler (`goRun`: the loop, the guard, the 64-bit accumulator) against
+the real `ALU.Run` under an arbitrary EXEC. Register layout of the case: v0:1 = src0, v2:3 = src1, v4:5 = src2
+(or a uniform value), v6:7 = dst. -/
+
+def uniOfKv (kv : List String) : Uni :=
+  let hx := fun k => (Util.kvHex? kv k).getD 0
+  let bv := fun (w : Nat) k => BitVec.ofNat w (hx k)
+  { isSdwa := hx "sdwa" != 0, clamp := hx "clamp" != 0, abs := bv 64 "abs", neg := bv 64 "neg", omod := bv 64 "omod"
+    src0Sel := bv 32 "s0sel", src1Sel := bv 32 "s1sel", dstSel := bv 32 "dsel", dstUnused := bv 8 "dun"
+    opSel := 0, opSelHi := 0, src0Neg := false, src1Neg := false, src2Neg := false, src0Abs := false, src1Abs := false
+    src2Abs := false, k2 := 0 }
+
+def goRunCase (arch name : String) (kv : List String) : String :=
+  let hx := fun k => (Util.kvHex? kv k).getD 0
+  let u := uniOfKv kv
+  match resolveLane arch name u with
+  | none => "untranslated"
+  | some h =>
+    if !h.ok u then "fault" else
+    let lst := fun k => (((Util.kv? kv k).bind hexList?).getD []).toArray
+    let s0 := lst "s0"
+    let s1 := lst "s1"
+    let s2 := lst "s2"
+    let d := lst "d"
+    let lo := fun (x : Nat) => x % 4294967296
+    let hi := fun (x : Nat) => x / 4294967296
+    let vgpr : Nat → Nat → Nat := fun l r =>
+      match r with
+      | 0 => lo (s0.getD l 0) | 1 => hi (s0.getD l 0)
+      | 2 => lo (s1.getD l 0) | 3 => hi (s1.getD l 0)
+      | 4 => lo (s2.getD l 0) | 5 => hi (s2.getD l 0)
+      | 6 => lo (d.getD l 0) | 7 => hi (d.getD l 0)
+      | _ => 0
+    let dw := hx "dw"
+    let ops : Ops :=
+      { src0 := .vgpr 0 2, src1 := .vgpr 2 2
+        src2 := (if (Util.kv? kv "s2k").getD "v" == "u" then .uni (BitVec.ofNat 64 (s2.getD 0 0)) else .vgpr 4 2)
+        dst := .vgpr 6 (dw / 32), uni := u }
+    let vcc := BitVec.ofNat 64 (hx "vcc")
+    let g := goRun h ops (BitVec.ofNat 64 (hx "exec")) vcc vgpr
+    let ds := (List.range 64).map fun l =>
+      Util.toHex (if dw == 64 then g.vgpr l 6 + 4294967296 * g.vgpr l 7 else g.vgpr l 6)
+    let target := match h.sink with
+      | .none => "none"
+      | .vcc => "vcc"
+      | .sdst => (Util.kv? kv "mos").getD "none"
+      | .dst => (Util.kv? kv "mod").getD "none"
+    let vcc' := if target == "vcc" then g.acc else vcc
+    let sd' := if target == "sd" then g.acc else BitVec.ofNat 64 (hx "sd")
+    s!"d={if dw == 0 then "-" else ",".intercalate ds} vcc={Util.toHex vcc'.toNat} sd={Util.toHex sd'.toNat}"
+
+/-! ## `c06 mbody`: one iteration of a translated DS / FLAT body against the real ALU (one active lane).
+The memory the loads see is given as a window `wb` (base address) / `win` (bytes); outside it: 0. -/
+
+def mbodyCase (arch name : String) (kv : List String) : String :=
+  match Gen.Lane.memHandlers.find? (fun h => h.arch == arch && h.name == name) with
+  | none => "untranslated"
+  | some h =>
+    let hx := fun k => (Util.kvHex? kv k).getD 0
+    let bytes := fun k => (((Util.kv? kv k).bind Util.hexBytes?).getD []).map (BitVec.ofNat 8)
+    let u : MemUni :=
+      { offset0 := BitVec.ofNat 32 (hx "off0"), offset1 := BitVec.ofNat 32 (hx "off1"), hasSAddr := hx "hs" != 0
+        scalarBase := BitVec.ofNat 64 (hx "sb"), ldsLen := BitVec.ofNat 64 (hx "ldslen") }
+    let base := hx "wb"
+    let win := (bytes "win").toArray
+    let mem : Nat → BitVec 8 := fun k => if base ≤ k ∧ k < base + win.size then win.getD (k - base) 0#8 else 0#8
+    -- the staging array starts poisoned: the body must not let it through (`memory_bodies_uniform`)
+    let r : MemRawIn :=
+      { i := (Util.kvNat? kv "i").getD 0, addr := BitVec.ofNat 64 (hx "a"), data := bytes "da", data1 := bytes "d1"
+        mem := mem, stage := List.replicate h.stageLen 0xaa#8 }
+    let o := h.raw u r
+    if o.fault then "fault" else
+    let d0 := bytes "d0"
+    let d := match o.dst with
+      | some bs => bs ++ d0.drop bs.length
+      | none => d0
+    let hexOf := fun (bs : List (BitVec 8)) => Util.bytesHex (bs.map (·.toNat))
+    let loads := if h.isLds then "-" else ",".intercalate (o.loads.map fun l => s!"{Util.toHex l.1}:{l.2}")
+    -- effect of the stores: LDS — the window afterwards (+ how many stores fell outside it); memory — the
+    -- bytes written, by address (a later store to the same address wins)
+    let eff :=
+      if h.isLds then
+        let after := (List.range win.size).map fun k =>
+          match (o.stores.reverse.find? fun st => st.1 == base + k) with
+          | some st => st.2
+          | none => win.getD k 0#8
+        let outside := (o.stores.filter fun st => !(base ≤ st.1 ∧ st.1 < base + win.size)).length
+        s!"{hexOf after}/{outside}"
+      else
+        let addrs := (o.stores.map (·.1)).eraseDups.toArray.qsort (· < ·)
+        ",".intercalate (addrs.toList.map fun a =>
+          match (o.stores.reverse.find? fun st => st.1 == a) with
+          | some st => s!"{Util.toHex a}:{Util.toHexPad 2 st.2.toNat}"
+          | none => "")
+    s!"d={hexOf d} loads={loads} mem={eff}"
+
 def sortStrings (l : List String) : List String := (l.toArray.qsort (· < ·)).toList
 
 def handle (line : String) : String :=
@@ -221,6 +367,9 @@ def handle (line : String) : String :=
               let full := if arch == "gcn3" then (if f == "flat" then "alu_flat.go" else "alu" ++ fl) else "cdna3/" ++ fl
               if full == file then some nm else none))
     s!"n={names.length} {",".intercalate names}"
+  | _ :: "body" :: arch :: name :: rest => bodyCase arch name rest
+  | _ :: "gorun" :: arch :: name :: rest => goRunCase arch name rest
+  | _ :: "mbody" :: arch :: name :: rest => mbodyCase arch name rest
   | _ :: "misfits" :: _ => s!"{misfits}"
   | _ => "bad-op"
 
